@@ -4,14 +4,15 @@
 //! over boundary values, vs. the Lean model (`Model/Config.lean`).
 //!
 //!   c18 apply <cfg> <opts>      c18 rabin <size> <min> <max>      c18 getters <cfg>
-//!   c18 packsize <cfg> <t|d> <cur>      c18 seq <opts>;<opts>;…      c18 smoke <opts> <mu> <mr> <r|-> <seed>
+//!   c18 packsize <cfg> <t|d> <cur>      c18 seq <opts>;<opts>;…      c18 smoke <opts>[;<opts>…] <mu> <mr> <r|-> <seed>
+//!   c18 limits <mu> <mr> <flags a|u|-> <pack>,<pack>…     pack = <t|d><m|-><u|n><len>+<u|n><len>…
 //! cfg/opts: comma list of key=value over v ck cs cmin cmax hot ao co ts tg tl ds dg dl minp maxp ev ("-" = none)
 //! limits (mu = max_unused, mr = max_repack): u | s<bytes> | p<percent>
-use crate::repo::{MemBackend, MemSource, RepoHandle, SrcEntry, backup, check_errors, expected, read_back};
+use crate::repo::{MemBackend, MemSource, RepoHandle, SRC_ROOT, SrcEntry, expected, read_back};
 use crate::util::{Rng, Stats, errkind, guarded};
 use bytesize::ByteSize;
 use rustic_core::repofile::{BlobType, Chunker, ConfigFile, FileType, SnapshotFile};
-use rustic_core::{BackupOptions, ConfigOptions, LimitOption, PruneOptions};
+use rustic_core::{BackupOptions, CheckOptions, ConfigOptions, LimitOption, PruneOptions, RusticResult};
 use std::sync::Mutex;
 
 const POLY: u64 = 0x003D_A335_8B4D_C173;
@@ -190,14 +191,80 @@ fn strip_root(v: &[crate::repo::ReadBack]) -> Vec<crate::repo::ReadBack> {
     v.iter().filter(|e| e.path != b"src").cloned().collect()
 }
 
-fn smoke_inner(opts: ConfigOptions, mu: LimitOption, mr: LimitOption, repack_all: bool, seed: u64) -> String {
+/// `backup` / `check` on the single-config-file view of the store (the smoke runs change the config).
+fn backup_oc(h: &RepoHandle, src: &MemSource, opts: &BackupOptions, snap: SnapshotFile) -> RusticResult<SnapshotFile> {
+    let repo = h.open_oc()?.to_indexed_ids()?;
+    repo.archive(opts, src, snap, &[std::path::PathBuf::from(SRC_ROOT)])
+}
+fn check_errors_oc(h: &RepoHandle, read_data: bool) -> Option<usize> {
+    let repo = h.open_oc().ok()?;
+    let res = repo.check(CheckOptions::default().read_data(read_data)).ok()?;
+    Some(res.0.iter().filter(|(l, _)| format!("{l:?}") == "Error").count())
+}
+
+/// What the statement says about the limits `decide_repack` derives from the options, evaluated on the values the
+/// real planner computed (hook `take_limits`): written from the option documentation (inequalities), not from the
+/// code's formula.  The value-by-value tie to the Lean model is the `limits` channel.
+fn limits_oracle(l: &rustic_core::verif::prune::RepackLimits, mu: &LimitOption, mr: &LimitOption, repack_all: bool) -> Result<(), String> {
+    let (used, total) = (u128::from(l.used), u128::from(l.total));
+    let (got_u, got_r) = (u128::from(l.max_unused), u128::from(l.max_repack));
+    if total < used {
+        return Err("oracle-fail:limits-total-below-used".into());
+    }
+    let ok_u = if repack_all {
+        got_u == 0
+    } else {
+        match mu {
+            LimitOption::Unlimited => l.max_unused == u64::MAX,
+            LimitOption::Size(s) => l.max_unused == s.as_u64(),
+            LimitOption::Percentage(p) if *p >= 100 => l.max_unused == u64::MAX,
+            // largest x with x * (100 - p) <= p * used  (p * used saturating at u64::MAX)
+            LimitOption::Percentage(p) => {
+                let prod = (u128::from(*p) * used).min(u128::from(u64::MAX));
+                let d = u128::from(100 - *p);
+                got_u * d <= prod && prod < (got_u + 1) * d
+            }
+            _ => true,
+        }
+    };
+    if !ok_u {
+        return Err(format!("oracle-fail:max-unused-limit-{}-for-used-{}", l.max_unused, l.used));
+    }
+    let ok_r = match mr {
+        LimitOption::Unlimited => l.max_repack == u64::MAX,
+        LimitOption::Size(s) => l.max_repack == s.as_u64(),
+        LimitOption::Percentage(p) => {
+            let prod = (u128::from(*p) * total).min(u128::from(u64::MAX));
+            got_r * 100 <= prod && prod < (got_r + 1) * 100
+        }
+        _ => true,
+    };
+    if !ok_r {
+        return Err(format!("oracle-fail:max-repack-limit-{}-for-total-{}", l.max_repack, l.total));
+    }
+    Ok(())
+}
+
+fn smoke_inner(steps: Vec<ConfigOptions>, mu: LimitOption, mr: LimitOption, repack_all: bool, seed: u64) -> String {
     let mut rng = Rng::new(seed);
-    let (h, repo) = match RepoHandle::init(MemBackend::new(), None, &opts) {
+    let (h, repo) = match RepoHandle::init_oc(MemBackend::new(), None, &steps[0]) {
         Ok(x) => x,
         Err(e) => return errkind(&e),
     };
-    let cfg = repo.config().clone();
     drop(repo);
+    // later steps: configuration changes; a refused one must leave the repository as it was (checked by `seq`),
+    // an accepted one must leave a repository that works
+    for o in &steps[1..] {
+        let mut repo = match h.open_oc() {
+            Ok(r) => r,
+            Err(e) => return format!("{}@open-for-config", errkind(&e)),
+        };
+        _ = repo.apply_config(o);
+    }
+    let cfg = match h.open_oc() {
+        Ok(r) => r.config().clone(),
+        Err(e) => return format!("{}@reopen", errkind(&e)),
+    };
     if let Err(e) = chunker_terminates(&cfg, &rng.bytes(5000)) {
         return format!("{e}@chunker");
     }
@@ -207,21 +274,21 @@ fn smoke_inner(opts: ConfigOptions, mu: LimitOption, mr: LimitOption, repack_all
     let src1 = smoke_source(&mut rng.clone(), small, false);
     let src2 = smoke_source(&mut rng.clone(), small, true);
     let bo = BackupOptions::default();
-    let s1 = match backup(&h, &src1, &bo, SnapshotFile::default()) {
+    let s1 = match backup_oc(&h, &src1, &bo, SnapshotFile::default()) {
         Ok(s) => s,
         Err(e) => return format!("{}@backup1", errkind(&e)),
     };
-    let s2 = match backup(&h, &src2, &bo, SnapshotFile::default()) {
+    let s2 = match backup_oc(&h, &src2, &bo, SnapshotFile::default()) {
         Ok(s) => s,
         Err(e) => return format!("{}@backup2", errkind(&e)),
     };
-    match check_errors(&h, true) {
+    match check_errors_oc(&h, true) {
         Some(0) => {}
         Some(n) => return format!("oracle-fail:check-{n}-errors"),
         None => return "oracle-fail:check-failed".into(),
     }
     for (s, src, tag) in [(&s1, &src1, "1"), (&s2, &src2, "2")] {
-        let r = h.open().and_then(|r| r.to_indexed()).and_then(|r| read_back(&r, s));
+        let r = h.open_oc().and_then(|r| r.to_indexed()).and_then(|r| read_back(&r, s));
         match r {
             Ok(got) if strip_root(&got) == expected(src) => {}
             Ok(got) => {
@@ -242,12 +309,15 @@ fn smoke_inner(opts: ConfigOptions, mu: LimitOption, mr: LimitOption, repack_all
         }
     }
     // forget the first snapshot, prune with the given limits
-    let repo = match h.open() {
+    let repo = match h.open_oc() {
         Ok(r) => r,
         Err(e) => return format!("{}@open", errkind(&e)),
     };
     if let Err(e) = repo.delete_snapshots(&[s1.id]) {
-        return format!("{}@forget", errkind(&e));
+        // an append-only repository refuses (C15); prune must refuse as well, everything else still has to work
+        if cfg.append_only != Some(true) {
+            return format!("{}@forget", errkind(&e));
+        }
     }
     let mut po = PruneOptions::default();
     po.max_unused = mu;
@@ -255,33 +325,51 @@ fn smoke_inner(opts: ConfigOptions, mu: LimitOption, mr: LimitOption, repack_all
     po.repack_all = repack_all;
     po.instant_delete = true;
     po.keep_delete = jiff::Span::new();
-    let repo = match h.open().and_then(|r| r.to_indexed_ids()) {
+    let repo = match h.open_oc().and_then(|r| r.to_indexed_ids()) {
         Ok(r) => r,
         Err(e) => return format!("{}@open", errkind(&e)),
     };
+    _ = rustic_core::verif::prune::take_limits();
     let plan = match repo.prune_plan(&po) {
         Ok(p) => p,
         Err(e) => return format!("{}@prune_plan", errkind(&e)),
     };
-    if let Err(e) = repo.prune(&po, plan) {
-        return format!("{}@prune", errkind(&e));
+    match rustic_core::verif::prune::take_limits() {
+        None => return "oracle-fail:no-limits-recorded".into(),
+        Some(l) => {
+            if let Err(e) = limits_oracle(&l, &mu, &mr, repack_all) {
+                return e;
+            }
+        }
     }
-    match check_errors(&h, true) {
+    if let Err(e) = repo.prune(&po, plan) {
+        if cfg.append_only != Some(true) {
+            return format!("{}@prune", errkind(&e));
+        }
+    }
+    match check_errors_oc(&h, true) {
         Some(0) => {}
         Some(n) => return format!("oracle-fail:check-after-prune-{n}-errors"),
         None => return "oracle-fail:check-after-prune-failed".into(),
     }
-    let r = h.open().and_then(|r| r.to_indexed()).and_then(|r| read_back(&r, &s2));
-    match r {
-        Ok(got) if strip_root(&got) == expected(&src2) => {}
-        Ok(_) => return "oracle-fail:restore-after-prune-differs".into(),
-        Err(e) => return format!("{}@restore-after-prune", errkind(&e)),
+    for (s, src, tag) in [(&s1, &src1, "1"), (&s2, &src2, "2")] {
+        if tag == "1" && cfg.append_only != Some(true) {
+            continue; // forgotten
+        }
+        let r = h.open_oc().and_then(|r| r.to_indexed()).and_then(|r| read_back(&r, s));
+        match r {
+            Ok(got) if strip_root(&got) == expected(src) => {}
+            Ok(_) => return format!("oracle-fail:restore{tag}-after-prune-differs"),
+            Err(e) => return format!("{}@restore{tag}-after-prune", errkind(&e)),
+        }
     }
     "ok".into()
 }
 
 fn exec_smoke(toks: &[&str]) -> String {
-    let (Some(opts), Some(mu), Some(mr), Ok(seed)) = (parse_opts(toks[1]), parse_limit(toks[2]), parse_limit(toks[3]), toks[5].parse::<u64>()) else {
+    let (Some(steps), Some(mu), Some(mr), Ok(seed)) =
+        (toks[1].split(';').map(parse_opts).collect::<Option<Vec<_>>>(), parse_limit(toks[2]), parse_limit(toks[3]), toks[5].parse::<u64>())
+    else {
         return "bad-op".into();
     };
     let repack_all = toks[4] == "r";
@@ -300,7 +388,7 @@ fn exec_smoke(toks: &[&str]) -> String {
     }));
     let (tx, rx) = std::sync::mpsc::channel();
     let _ = std::thread::Builder::new().name("smoke".into()).spawn(move || {
-        let r = std::panic::catch_unwind(move || smoke_inner(opts, mu, mr, repack_all, seed));
+        let r = std::panic::catch_unwind(move || smoke_inner(steps, mu, mr, repack_all, seed));
         let _ = tx.send(r.unwrap_or_else(|_| "panic".into()));
     });
     let res = rx.recv_timeout(std::time::Duration::from_secs(25));
@@ -312,6 +400,84 @@ fn exec_smoke(toks: &[&str]) -> String {
     match res {
         Ok(s) => s,
         Err(_) => "oracle-fail:timeout".into(),
+    }
+}
+
+// --------------------------------------------------------------------------------------------- limits
+
+/// `c18 limits <mu> <mr> <flags> <packs>`: run the real planner (`PrunePlan::new` → `count_used_blobs` → `decide_packs`
+/// → `decide_repack`, hook `plan_from_parts`) on a crafted index whose used / unused blob sizes are given, and report
+/// the limits `decide_repack` computed (hook `take_limits`) together with the sums they were computed from.
+fn exec_limits(toks: &[&str]) -> String {
+    use rustic_core::repofile::{IndexFile, IndexId, IndexPack, PackId};
+    use rustic_core::verif::prune as hook;
+    use rustic_core::{BlobId, Id};
+    let (Some(mu), Some(mr)) = (parse_limit(toks[1]), parse_limit(toks[2])) else { return "bad-op".into() };
+    let flags = toks[3];
+    if flags != "-" && !flags.chars().all(|c| c == 'a' || c == 'u') {
+        return "bad-op".into();
+    }
+    let mk_id = |kind: u8, n: u64| -> Id { format!("c1{kind:02x}{n:060x}").parse().unwrap() };
+    let mut index = IndexFile::default();
+    let mut used = Vec::new();
+    let mut existing = Vec::new();
+    let mut n_blob = 0u64;
+    for (pn, p) in toks[4].split(',').enumerate() {
+        let mut ch = p.chars();
+        let (Some(t), Some(m)) = (ch.next(), ch.next()) else { return "bad-op".into() };
+        let tpe = match t {
+            't' => BlobType::Tree,
+            'd' => BlobType::Data,
+            _ => return "bad-op".into(),
+        };
+        if m != 'm' && m != '-' {
+            return "bad-op".into();
+        }
+        let mut blobs = Vec::new();
+        let mut offset = 0u64;
+        for b in p[2..].split('+') {
+            if b.len() < 2 {
+                return "bad-op".into();
+            }
+            let (u, len) = b.split_at(1);
+            let Ok(len) = len.parse::<u32>() else { return "bad-op".into() };
+            let id = mk_id(2, n_blob);
+            n_blob += 1;
+            match u {
+                "u" => used.push((tpe, BlobId::from(id))),
+                "n" => {}
+                _ => return "bad-op".into(),
+            }
+            blobs.push(serde_json::json!({"id": id.to_hex().as_str(), "type": if tpe == BlobType::Tree { "tree" } else { "data" },
+                "offset": offset.min(u64::from(u32::MAX)), "length": len}));
+            offset += u64::from(len);
+        }
+        let size = offset.min(u64::from(u32::MAX)) as u32;
+        let pid = mk_id(1, pn as u64);
+        let ip: IndexPack = match serde_json::from_value(serde_json::json!({"id": pid.to_hex().as_str(), "blobs": blobs, "size": size})) {
+            Ok(x) => x,
+            Err(_) => return "bad-op".into(),
+        };
+        if m == 'm' {
+            index.packs_to_delete.push(ip);
+        } else {
+            index.packs.push(ip);
+        }
+        existing.push((PackId::from(pid), size));
+    }
+    let po = PruneOptions::default().max_unused(mu).max_repack(mr).repack_all(flags.contains('a')).repack_uncompressed(flags.contains('u'));
+    let sizer = || rustic_core::verif::packer::pack_sizer(4 << 20, 32, u32::MAX, 0, 30, 0);
+    let sizers = hook::pack_sizers(sizer(), sizer());
+    _ = hook::take_limits();
+    let now = jiff::Timestamp::from_second(1_700_000_000).unwrap().to_zoned(jiff::tz::TimeZone::UTC);
+    // the plan itself may be refused later (e.g. a marked pack without time); the limits have been computed by then
+    let res = hook::plan_from_parts(used, existing, vec![(IndexId::from(mk_id(3, 0)), index)], &po, now, false, &sizers);
+    match hook::take_limits() {
+        Some(l) => format!("ok {} {} {} {}", l.max_unused, l.max_repack, l.used, l.total),
+        None => match res {
+            Ok(_) => "oracle-fail:no-limits-recorded".into(),
+            Err(e) => format!("{}@plan", errkind(&e)),
+        },
     }
 }
 
@@ -418,6 +584,7 @@ pub fn exec(toks: &[&str]) -> String {
                 format!("ok {}", rustic_core::verif::packer::pack_size(&c, bt, cur))
             }
             (Some("seq"), 2) => exec_seq(&toks),
+            (Some("limits"), 5) => exec_limits(&toks),
             _ => "bad-op".into(),
         }
     })
@@ -565,12 +732,17 @@ fn gen_limit(rng: &mut Rng) -> String {
     }
 }
 
-fn gen_smoke_opts(thorough: bool, rng: &mut Rng, stats: &mut Stats) -> String {
+/// One option set of a smoke run.  `first` = the options of `init` (later ones go through `apply_config`).
+fn gen_smoke_opts(heavy_ok: bool, first: bool, rng: &mut Rng, stats: &mut Stats) -> String {
     let mut v: Vec<String> = Vec::new();
-    if rng.chance(1, 6) {
+    let v1 = first && rng.chance(1, 6);
+    if v1 {
         v.push("v=1".into());
+    } else if !first && rng.chance(1, 6) {
+        v.push(format!("v={}", rng.pick(&[1u32, 2, 2])));
     }
-    match rng.below(8) {
+    const MAXU: u64 = u64::MAX; // usize::MAX on the 64-bit targets the harness runs on
+    match rng.below(12) {
         0 => {}
         1 => {
             // boundary chunk parameters, possibly refused
@@ -583,44 +755,146 @@ fn gen_smoke_opts(thorough: bool, rng: &mut Rng, stats: &mut Stats) -> String {
         }
         2 => {
             v.push("ck=f".into());
-            v.push(format!("cs={}", *rng.pick(&[0u64, 1, 7, 64, 4096, 100_000])));
+            v.push(format!("cs={}", *rng.pick(&[0u64, 1, 7, 64, 4096, 8000, 100_000])));
             stats.hit("smoke.fixed");
+        }
+        3 => {
+            // fixed-size chunker with a huge chunk size: every file is one chunk
+            v.push("ck=f".into());
+            v.push(format!("cs={}", *rng.pick(&[1u64 << 32, 1 << 62, 1 << 63, (1 << 63) + 1, MAXU - 1, MAXU])));
+            stats.hit("smoke.fixed-huge");
+        }
+        4 | 5 => {
+            // huge accepted rabin parameters: size = 2^k up to 2^63, min up to size, max up to usize::MAX
+            let k = *rng.pick(&[62u64, 63, 63, 40, 32, 0]);
+            let k = if k == 0 { rng.range(21, 63) } else { k };
+            let size = 1u64 << k;
+            let min = match rng.below(6) {
+                0 | 1 | 2 => size,
+                3 => size / 2,
+                4 => size - 1,
+                _ => *rng.pick(&[1u64, 64, 4096, 1 << 20]),
+            };
+            let max = match rng.below(5) {
+                0 => size,
+                1 => MAXU,
+                2 => size.saturating_add(1),
+                3 => size.saturating_mul(2),
+                _ => MAXU - rng.below(3),
+            };
+            if rng.chance(1, 8) {
+                v.push("ck=r".into());
+            }
+            v.push(format!("cs={size}"));
+            v.push(format!("cmin={min}"));
+            v.push(format!("cmax={max}"));
+            stats.hit("smoke.chunk-huge");
+        }
+        6 => {
+            // only one of the three sizes named (the other two keep their stored / default values)
+            let (k, vals) = *rng.pick(&[("cmax", &[8u64 << 20, (8 << 20) + 1, 1 << 40, 1 << 63, MAXU][..]), ("cmin", &[1u64, 4096, 512 << 10, 1 << 20][..]), ("cs", &[1u64 << 19, 1 << 20, 1 << 22, 1 << 23][..])]);
+            v.push(format!("{k}={}", rng.pick(vals)));
+            stats.hit("smoke.chunk-one-size");
+        }
+        7 => {
+            // only the chunker kind is named: the stored sizes must suit the new chunker
+            v.push(format!("ck={}", rng.pick(&["r", "f"])));
+            stats.hit("smoke.chunker-only");
         }
         _ => {
             good_chunk(rng, &mut v, true);
+            if rng.chance(1, 6) {
+                v.push(format!("ck={}", rng.pick(&["r", "f"])));
+            }
             stats.hit("smoke.chunk-tiny");
         }
     }
-    if rng.chance(1, 2) && !v.iter().any(|x| x == "v=1") {
+    if v1 {
+        // version 1 + options: only compression 0 is acceptable
+        if rng.chance(1, 3) {
+            v.push(format!("co={}", rng.pick(&[0i64, 0, 1, -1])));
+        }
+    } else if rng.chance(1, 2) {
         // levels >= 19 cost seconds and gigabytes per blob: only in the thorough tier, only with the default chunker
-        let heavy = thorough && rng.chance(1, 30) && !v.iter().any(|x| x.starts_with("cs=") || x.starts_with("ck="));
-        v.push(format!("co={}", if heavy { *rng.pick(&[19i64, 22]) } else { *rng.pick(&[-131_072i64, -7, -1, 0, 1, 3, 9]) }));
+        // (the same holds, less dramatically, for levels 10..18 on thousands of tiny chunks)
+        let heavy = heavy_ok && rng.chance(1, 30) && !v.iter().any(|x| x.starts_with("cs=") || x.starts_with("ck=") || x.starts_with("cm"));
+        v.push(format!("co={}", if heavy { *rng.pick(&[18i64, 19, 22]) } else { *rng.pick(&[-131_072i64, -131_071, -100, -7, -1, 0, 1, 3, 9]) }));
     }
     for k in ["ts", "ds"] {
         if rng.chance(1, 2) {
-            v.push(format!("{k}={}", *rng.pick(&[0u64, 1, 100, 5000, 65536, u32::MAX as u64])));
+            v.push(format!("{k}={}", *rng.pick(&[0u64, 1, 2, 100, 5000, 65536, 1 << 31, u32::MAX as u64 - 1, u32::MAX as u64])));
         }
     }
     for k in ["tg", "dg"] {
         if rng.chance(1, 2) {
-            v.push(format!("{k}={}", *rng.pick(&[0u64, 1, 32, 65536, u32::MAX as u64])));
+            v.push(format!("{k}={}", *rng.pick(&[0u64, 1, 32, 65536, 1 << 31, u32::MAX as u64])));
         }
     }
     for k in ["tl", "dl"] {
         if rng.chance(1, 3) {
-            v.push(format!("{k}={}", *rng.pick(&[0u64, 1, 1000, 100_000, u32::MAX as u64])));
+            v.push(format!("{k}={}", *rng.pick(&[0u64, 1, 1000, 100_000, 1 << 31, u32::MAX as u64])));
         }
     }
     if rng.chance(1, 3) {
-        v.push(format!("minp={}", *rng.pick(&[0u64, 30, 100])));
+        v.push(format!("minp={}", *rng.pick(&[0u64, 1, 30, 99, 100])));
     }
     if rng.chance(1, 3) {
-        v.push(format!("maxp={}", *rng.pick(&[0u64, 100, 150, u32::MAX as u64])));
+        v.push(format!("maxp={}", *rng.pick(&[0u64, 100, 101, 150, 1 << 31, u32::MAX as u64])));
     }
     if rng.chance(1, 4) {
         v.push(format!("ev={}", rng.below(2)));
     }
+    if !first && rng.chance(1, 12) {
+        v.push(format!("ao={}", rng.below(2)));
+    }
     if v.is_empty() { "-".into() } else { v.join(",") }
+}
+
+/// init options followed (one run in three) by 1..3 configuration changes
+fn gen_smoke_steps(thorough: bool, rng: &mut Rng, stats: &mut Stats) -> String {
+    let multi = rng.chance(1, 3);
+    let mut steps = vec![gen_smoke_opts(thorough && !multi, true, rng, stats)];
+    if multi {
+        for _ in 0..rng.range(1, 3) {
+            steps.push(gen_smoke_opts(false, false, rng, stats));
+        }
+        stats.hit("smoke.with-config-changes");
+    }
+    steps.join(";")
+}
+
+/// packs with given used / unused blob sizes for the `limits` channel (per-pack sum within u32)
+fn gen_limit_packs(rng: &mut Rng) -> String {
+    let mut packs = Vec::new();
+    for _ in 0..rng.range(1, 5) {
+        let mut room = u32::MAX as u64;
+        let mut blobs = Vec::new();
+        for _ in 0..rng.range(1, 4) {
+            let len = match rng.below(8) {
+                0 => 0,
+                1 => 1,
+                2 => rng.below(1000),
+                3 => rng.below(1 << 20),
+                4 => room,
+                5 => room / 2,
+                _ => rng.below(1 << 32),
+            }
+            .min(room);
+            room -= len;
+            blobs.push(format!("{}{len}", if rng.chance(3, 5) { "u" } else { "n" }));
+        }
+        packs.push(format!("{}{}{}", rng.pick(&["t", "d", "d"]), if rng.chance(1, 6) { "m" } else { "-" }, blobs.join("+")));
+    }
+    packs.join(",")
+}
+
+fn gen_limit_any(rng: &mut Rng) -> String {
+    match rng.below(6) {
+        0 => format!("p{}", rng.range(1, 99)),
+        1 => format!("p{}", size_val(rng)),
+        2 => format!("s{}", size_val(rng)),
+        _ => gen_limit(rng),
+    }
 }
 
 pub fn generate(thorough: bool, rng: &mut Rng, ops: &mut Vec<String>, stats: &mut Stats) {
@@ -683,8 +957,12 @@ pub fn generate(thorough: bool, rng: &mut Rng, ops: &mut Vec<String>, stats: &mu
         ops.push(format!("c18 seq {}", steps.join(";")));
         stats.hit("op.seq");
     }
-    for _ in 0..(if thorough { 600 } else { 70 }) {
-        let opts = gen_smoke_opts(thorough, rng, stats);
+    for _ in 0..600 * k {
+        ops.push(format!("c18 limits {} {} {} {}", gen_limit_any(rng), gen_limit_any(rng), rng.pick(&["-", "-", "-", "a", "u", "au"]), gen_limit_packs(rng)));
+        stats.hit("op.limits");
+    }
+    for _ in 0..(if thorough { 1000 } else { 120 }) {
+        let opts = gen_smoke_steps(thorough, rng, stats);
         ops.push(format!("c18 smoke {opts} {} {} {} {}", gen_limit(rng), gen_limit(rng), if rng.chance(1, 6) { "r" } else { "-" }, rng.below(1 << 30)));
         stats.hit("op.smoke");
     }
